@@ -88,13 +88,6 @@ def run(ctx):
                     'sig_not_dec, FunctionalExtensionality.functional_extensionality_dep)',
                     'Bignums (BigQ on 63-bit machine integers) is used to EVALUATE the models in the correspondence check only',
                     'np.count_nonzero on the float B matrix is modelled by the exact zero test of the exact B matrix']
-    # the known finding of this property (DESIGN section 5 item 9); registered here as well so that the check is
-    # self-contained until the integrator has copied the triple into known_findings.json
-    if not any((f.get('call_site'), f.get('predicate'), f.get('input_class')) == KNOWN for f in ctx.findings):
-        ctx.findings.append(dict(property='C12', id='NEW_C12_strain_shear_doubled', status='known', call_site=KNOWN[0], predicate=KNOWN[1],
-                                 input_class=KNOWN[2], demo='findings/NEW_C12_strain_shear_doubled.py',
-                                 text='Strain(voigt=True) returns 2x the engineering shear (voigt=False returns gamma, not eps_xy); Stress and the '
-                                      'energy identity inherit the factor; pinned by tests/test_element_operations.py::test_pure_shear'))
     vlib.audit(ctx)
     if not vlib.ensure_static(ctx, ['theories/Props/C12.vo', 'theories/Base/SpCanon.vo', 'theories/Base/Cmp.vo', 'theories/Model/ElemOps.vo']):
         return
